@@ -18,7 +18,7 @@ func init() {
 	fw.Register(&fw.Property{
 		ID:    "C01",
 		Level: "exploration",
-		Rule: "cases = PRNG-generated multi-writer histories (chains, forks, merges; 1-4 writers, 3 store types) executed on real stores over the simulated network with per-replica random delivery order, batching (bursts), drops and duplication, plus observer replicas fed by other routes (exchange on join, manual Sync of shuffled/duplicated head and non-head entries, restart + load from disk, snapshot). " +
+		Rule: "cases = PRNG-generated multi-writer histories (chains, forks, merges; 1-4 writers, 3 store types) executed on real stores over the simulated network with per-replica random delivery order, batching (bursts), drops, duplication and deliveries during which a remote block fetch fails (the message is delivered again later), plus observer replicas fed by other routes (exchange on join, manual Sync of shuffled/duplicated head and non-head entries, restart + load from disk, snapshot). " +
 			"distinct = hash(store type, step script); non-trivial = (>= 2 writers or a fork in the DAG) and >= 2 replicas with equal non-empty entry sets were compared at some checkpoint",
 		Assumptions: []string{
 			"no two distinct entries share (Lamport time, writer key): each identity writes through one live store that loaded its log (generator guarantees it)",
@@ -69,7 +69,7 @@ func c01Run(c fw.Case) fw.Verdict {
 	r := &Runner{E: e, Rng: rng, Cfg: ScenCfg{
 		Type: c.Str("type", tKV), NPeers: np, Writers: wr, NSteps: c.Int("steps", 20),
 		Keys: []string{"a", "b", "ключ"}, OnDisk: c.Bool("ondisk"),
-		WWrite: 40, WDeliver: 25, WDeliverAll: 4, WDrop: 8, WDup: 6, WSync: 5, WBurst: 6, WCut: 3, WHeal: 4, WConc: 4,
+		WWrite: 40, WDeliver: 25, WDeliverAll: 4, WDrop: 8, WDup: 6, WSync: 5, WBurst: 6, WCut: 3, WHeal: 4, WConc: 4, WFaultyDeliver: 5, WHoleHeal: 4,
 		CheckEvery: 6,
 	}}
 	if r.Cfg.OnDisk {
@@ -114,6 +114,8 @@ func (r *Runner) finish(steps []Step, routes []string, nontrivial func() bool) f
 	v.Count("announcements_lost", int64(r.Lost))
 	v.Count("restarts", int64(r.Restarts))
 	v.Count("concurrent_write_merge_steps", int64(r.ConcSteps))
+	v.Count("deliveries_with_a_failed_fetch", int64(r.FaultyFetches))
+	v.Count("hole_then_heal_steps", int64(r.HoleHeals))
 	v.Count("wire_messages", int64(r.E.W.WireLen()))
 	v.Sig = r.scriptSig(steps) + fw.HashSig(routes)
 	v.Trace = r.Trace
